@@ -148,7 +148,7 @@ func diffMap(old map[string]interface{}, newAny interface{}) interface{} {
 	}
 
 	// Assert that the __key fields, if present, are equal.
-	if old["__key"] != new["__key"] {
+	if comparableKey(old["__key"]) != comparableKey(new["__key"]) {
 		return markReplaced(new)
 	}
 
@@ -187,6 +187,19 @@ func diffMap(old map[string]interface{}, newAny interface{}) interface{} {
 	return d
 }
 
+// bytesKey is the comparable form of a []byte __key.
+type bytesKey string
+
+// comparableKey returns a __key in a form that can be compared with == and
+// used as a map key. Keys of the "bytes" scalar type are []byte values, which
+// Go can neither compare nor hash; they are compared by content.
+func comparableKey(key interface{}) interface{} {
+	if b, ok := key.([]byte); ok {
+		return bytesKey(b)
+	}
+	return key
+}
+
 // reoderKey returns the key to use for a
 func reorderKey(i interface{}) interface{} {
 	if i == nil {
@@ -194,7 +207,7 @@ func reorderKey(i interface{}) interface{} {
 	}
 	if object, ok := i.(map[string]interface{}); ok {
 		if key, ok := object["__key"]; ok {
-			return key
+			return comparableKey(key)
 		}
 	}
 
